@@ -399,7 +399,13 @@ class Ctx:
         }
         if self.notes:
             ev["notes"] = self.notes
-        with open(os.path.join(ROOT, "evidence", self.pid + ".json"), "w") as f:
+        evdir = os.path.join(ROOT, "evidence")
+        if os.path.realpath(REPO) != "/repo":
+            # a run against a scratch copy (mutation / seeded change) must not
+            # overwrite the evidence of the real tree
+            evdir = os.path.join("/tmp", "verif_alt_evidence")
+            os.makedirs(evdir, exist_ok=True)
+        with open(os.path.join(evdir, self.pid + ".json"), "w") as f:
             json.dump(ev, f, indent=1, default=str)
         shutil.rmtree(self.build, ignore_errors=True)
         for key, what, path in self.violations:
